@@ -133,6 +133,16 @@ func TypeAwareUnmarshalValue(self interface{}, typ ast.Type) *Value {
 	case bool:
 		return NewValueBool(self)
 	case map[string]interface{}:
+		// An any-object has no declared fields: keep every key with its untyped value.
+		if typ.Kind() == ast.AnyObjectTypeKind {
+			fields := make(map[string]*Value)
+			for key, field := range self {
+				fieldValue, _ := UnmarshalValue(herrors.Span{}, field)
+				fields[key] = fieldValue
+			}
+			return NewValueAnyObject(fields)
+		}
+
 		typeFields := typ.(ast.ObjectType).ObjFields
 
 		fields := make(map[string]*Value)
@@ -167,6 +177,8 @@ func UnmarshalValue(span herrors.Span, self interface{}) (*Value, *VmInterrupt) 
 			return NewValueInt(int64(self)), nil
 		}
 		return NewValueFloat(self), nil
+	case jsonFloat:
+		return UnmarshalValue(span, float64(self))
 	case int:
 		return NewValueInt(int64(self)), nil
 	case int64:
